@@ -1,7 +1,7 @@
 """C16 - a fault in one text block does not disturb the rest of the document (structural clauses)."""
 from ..report import Check
 from ..callgraph import CallGraph
-from ..rules import stack, scopes, globalstate
+from ..rules import stack, scopes, globalstate, driver
 from ..lexer import Lexer
 
 
@@ -12,6 +12,7 @@ def run(F, G, tier, seed):
     # operand stacks: a block can leave a surplus (harmless: all access is top-relative) but never a deficit
     stack.check(chk, T, "R-STACK[doc]", "UTAP::DocumentBuilder", emit=("N", "P"))
     scopes.stale(chk, F)
+    driver.deferred(chk, F, T)
     scopes.entry_points(chk, F)
     # the scanner's start condition is the one piece of lexer state that outlives a block: a label that ends
     # inside a comment must not turn the following blocks into comment text
